@@ -26,8 +26,11 @@ from typing import Optional
 
 from .core import FuncInfo, unparse
 
+_NEGOP = {ast.In: ast.NotIn, ast.NotIn: ast.In, ast.Is: ast.IsNot,
+          ast.IsNot: ast.Is, ast.Eq: ast.NotEq, ast.NotEq: ast.Eq,
+          ast.Lt: ast.GtE, ast.GtE: ast.Lt, ast.Gt: ast.LtE, ast.LtE: ast.Gt}
 _COMPS = (ast.ListComp, ast.SetComp, ast.GeneratorExp, ast.DictComp)
-_WRAP = {"list", "tuple", "iter", "tqdm", "sorted_nop"}
+_WRAP = {"list", "tuple", "iter", "tqdm", "set", "frozenset", "sorted"}
 
 
 class Roles:
@@ -100,7 +103,7 @@ class Roles:
                             env2[nm.id] = f"each({it})" + self._index(
                                 g.target, nm.id)
                     for c in g.ifs:
-                        self.side.append(self.test(c, True, env2, loc2))
+                        self.side += self.expand(c, True, env2, loc2)
                 return self._of(src.elt, loc2, env2, d)
             it = self._iter(val, stmt, env, d)
             return f"each({it})" + self._index(tgt, name)
@@ -130,9 +133,23 @@ class Roles:
     def _iter(self, it: ast.AST, loc: ast.AST, env: dict[str, str],
               d: int) -> str:
         cur = it
-        while isinstance(cur, ast.Call) and isinstance(cur.func, ast.Name) \
-                and cur.func.id in _WRAP and cur.args:
-            cur = cur.args[0]
+        for _ in range(6):
+            if isinstance(cur, ast.Call) and isinstance(cur.func, ast.Name) \
+                    and cur.func.id in _WRAP and cur.args:
+                cur = cur.args[0]
+                continue
+            if isinstance(cur, ast.Name) and cur.id not in env:
+                bs = self.reach.at(loc, cur.id)
+                if len(bs) == 1 and bs[0].kind == "assign" and isinstance(
+                        bs[0].target, ast.Name) and isinstance(
+                        bs[0].value, ast.Call) and isinstance(
+                        bs[0].value.func, ast.Name) and \
+                        bs[0].value.func.id in _WRAP and bs[0].value.args:
+                    # a wrapped iterable bound to a name: iterate the
+                    # wrapped value (evaluated where the name was bound)
+                    cur, loc = bs[0].value.args[0], bs[0].stmt
+                    continue
+            break
         return self._of(cur, loc, env, d)
 
     def _of(self, e: ast.AST, loc: ast.AST, env: dict[str, str],
@@ -142,6 +159,21 @@ class Roles:
             return self._name(e, loc, env, d)
         if isinstance(e, ast.Attribute):
             return f"{f(e.value, loc, env, d)}.{e.attr}"
+        if isinstance(e, ast.Call) and isinstance(e.func, ast.Name) \
+                and e.func.id in ("set", "list") and len(e.args) == 1 \
+                and not e.keywords and not self.defs.of(e.func.id):
+            g, gloc = e.args[0], loc
+            if isinstance(g, ast.Name) and g.id not in env:
+                bs = self.reach.at(loc, g.id)
+                if len(bs) == 1 and bs[0].kind == "assign" and isinstance(
+                        bs[0].value, (ast.GeneratorExp, ast.ListComp)):
+                    g, gloc = bs[0].value, bs[0].stmt
+            if isinstance(g, (ast.GeneratorExp, ast.ListComp)):
+                # set(x for ..) == {x for ..};  list(x for ..) == [x for ..]
+                cls = ast.SetComp if e.func.id == "set" else ast.ListComp
+                return f(ast.copy_location(cls(elt=g.elt,
+                                               generators=g.generators), e),
+                         gloc, env, d)
         if isinstance(e, ast.Call):
             fn = f"{f(e.func.value, loc, env, d)}.{e.func.attr}" if isinstance(
                 e.func, ast.Attribute) else f(e.func, loc, env, d)
@@ -196,6 +228,18 @@ class Roles:
             tail = "".join(f" times({r})" for r in reps)
             tail += (" if " + " and ".join(conds)) if conds else ""
             return f"{o}{body} for..{tail}{c}"
+        if isinstance(e, ast.UnaryOp) and isinstance(e.op, ast.Not) and \
+                isinstance(e.operand, ast.Compare) and len(
+                    e.operand.ops) == 1 and type(e.operand.ops[0]) in _NEGOP:
+            # not (a in b) == a not in b
+            c = e.operand
+            return f(ast.copy_location(ast.Compare(
+                left=c.left, ops=[_NEGOP[type(c.ops[0])]()],
+                comparators=c.comparators), e), loc, env, d)
+        if isinstance(e, ast.UnaryOp) and isinstance(e.op, ast.Not) and \
+                isinstance(e.operand, ast.UnaryOp) and isinstance(
+                    e.operand.op, ast.Not):
+            return f"bool({f(e.operand.operand, loc, env, d)})"
         if isinstance(e, ast.UnaryOp):
             return f"{type(e.op).__name__}({f(e.operand, loc, env, d)})"
         if isinstance(e, ast.BinOp):
@@ -204,6 +248,17 @@ class Roles:
         if isinstance(e, ast.BoolOp):
             return "(" + f" {type(e.op).__name__} ".join(
                 f(v, loc, env, d) for v in e.values) + ")"
+        if isinstance(e, ast.Compare) and len(e.ops) == 1 and isinstance(
+                e.ops[0], (ast.Eq, ast.NotEq)):
+            a, b = sorted([f(e.left, loc, env, d),
+                           f(e.comparators[0], loc, env, d)])
+            return f"({a} {type(e.ops[0]).__name__} {b})"
+        if isinstance(e, ast.Compare) and len(e.ops) == 1 and isinstance(
+                e.ops[0], (ast.Gt, ast.GtE)):
+            # a > b == b < a
+            op = "Lt" if isinstance(e.ops[0], ast.Gt) else "LtE"
+            return f"({f(e.comparators[0], loc, env, d)} {op} " \
+                   f"{f(e.left, loc, env, d)})"
         if isinstance(e, ast.Compare):
             s = f(e.left, loc, env, d)
             for op, c in zip(e.ops, e.comparators):
@@ -225,8 +280,30 @@ class Roles:
         if nid is None:
             return out
         for test, sense in cfg.controlling(nid):
-            out.append(self.test(test, sense))
+            out += self.expand(test, sense)
         return out
+
+    def expand(self, test: ast.AST, sense: bool,
+               env: Optional[dict[str, str]] = None,
+               loc: Optional[ast.AST] = None) -> list[tuple[str, ...]]:
+        """A branch condition as a list of conjuncts: ``a and b`` (true) and
+        ``a or b`` (false) are split; a disjunction is one ("any", (..), "1")
+        guard over its sorted alternatives."""
+        e, pos = test, sense
+        while isinstance(e, ast.UnaryOp) and isinstance(e.op, ast.Not):
+            e, pos = e.operand, not pos
+        if isinstance(e, ast.BoolOp):
+            conj = isinstance(e.op, ast.And) == pos
+            parts = []
+            for v in e.values:
+                parts.append(self.expand(v, pos, env, loc if loc is not None
+                                         else test))
+            if conj:
+                return [g for p in parts for g in p]
+            alts = tuple(sorted(p[0] if len(p) == 1 else ("all", tuple(p))
+                                for p in parts))
+            return [("any", alts, "1")]
+        return [self.test(e, pos, env, loc if loc is not None else test)]
 
     def test(self, test: ast.AST, sense: bool = True,
              env: Optional[dict[str, str]] = None,
@@ -257,6 +334,16 @@ class Roles:
                 a, b = b, a
             return ("le", self._of(a, loc, env, 12), self._of(b, loc, env, 12), p)
         if isinstance(e, ast.Compare) and len(e.ops) == 1:
-            return ("cmp", self._of(e.left, loc, env, 12), type(e.ops[0]).__name__,
-                    self._of(e.comparators[0], loc, env, 12), p)
+            op = type(e.ops[0])
+            l = self._of(e.left, loc, env, 12)
+            r = self._of(e.comparators[0], loc, env, 12)
+            if op in (ast.NotIn, ast.IsNot, ast.NotEq):
+                # one operator per pair: ``a not in b`` is ``a in b`` with
+                # the opposite polarity
+                op, p = _NEGOP[op], ("0" if p == "1" else "1")
+            elif op is ast.Gt:
+                op, l, r = ast.Lt, r, l          # a > b  ==  b < a
+            if op is ast.Eq and l > r:
+                l, r = r, l
+            return ("cmp", l, op.__name__, r, p)
         return ("truth", self._of(e, loc, env, 12), p)
